@@ -1,10 +1,11 @@
 #!/bin/bash
-# usage: eval_all_mutants.sh  (evaluates /tmp/mut/*/MUTANTS/*; results in /tmp/mut/results/<id>.json)
+# usage: eval_all_mutants.sh <base dir> <id offset>   e.g. /tmp/mut 0   or /tmp/mut2 2
+BASE=${1:-/tmp/mut}; OFF=${2:-0}
 mkdir -p /tmp/mut/results
 declare -A EXTRA=( [C03]="C13" [C04]="C05" [C05]="C04" [C06]="C19" [C10]="" [C12]="C18" [C13]="C03 C05" [C14]="C18" [C15]="" [C18]="C12 C14" [C19]="C05 C06" )
-for pdir in /tmp/mut/C*/MUTANTS/*; do
+for pdir in $BASE/C*/MUTANTS/*; do
   [ -f "$pdir/patch.diff" ] || continue
-  pid=$(echo $pdir | cut -d/ -f4); n=$(basename $pdir); id="$pid-$n"
+  pid=$(echo $pdir | awk -F/ '{print $(NF-2)}'); n=$(basename $pdir); id="$pid-$((n+OFF))"
   [ -f /tmp/mut/results/$id.json ] && continue
   echo "=== $id $(date +%H:%M:%S)"
   python3 /verif/tools/try_mutant.py $pdir $id $pid ${EXTRA[$pid]} --keep > /tmp/mut/results/$id.json 2>/tmp/mut/results/$id.err
